@@ -288,6 +288,21 @@ def run_replay_file(path: str) -> int:
     return 0
 
 
+def die_with_parent(poll_s: float = 2.0):
+    """Worker initializer: a worker whose parent is gone (the check was killed by a timeout) exits instead of running on as
+    an orphan.  A daemon thread polls the parent pid; nothing is signalled while the parent lives."""
+    import threading
+    parent = os.getppid()
+
+    def watch():
+        while True:
+            time.sleep(poll_s)
+            if os.getppid() != parent:
+                os._exit(3)
+
+    threading.Thread(target=watch, daemon=True, name="die-with-parent").start()
+
+
 def try_replay(script: str, timeout_s: float = 120.0) -> dict:
     """Run a replay script against the real code (VERIF_REPO) in a fresh interpreter.
     reproduced = the script raised AssertionError (the contract's postcondition is false on the real outcome)."""
